@@ -25,6 +25,30 @@ pub fn check_c18(h: &Hist) -> POut {
             }
         }
     }
+    // any family: a TTL reported for k must be explicable by some write of k itself (with forced
+    // collisions another key's entry lives under the same index)
+    let writes: Vec<&OpRec> = h.ops.iter().filter(|o| matches!(o.op, Op::Insert { .. } | Op::InsertIfPresent { .. })).collect();
+    for g in h.ops.iter().filter(|g| matches!(g.op, Op::GetTtl { .. }) && g.returned()) {
+        let (Some(k), Some(Res::Ttl(Some(t)))) = (g.op.key(), g.res.as_ref()) else { continue };
+        let explained = writes.iter().filter(|w| w.op.key() == Some(k) && w.inv_seq < g.ret_seq.unwrap()).any(|w| {
+            let ttl = match w.op {
+                Op::Insert { ttl_ns, .. } => ttl_ns,
+                _ => 0,
+            };
+            if ttl == 0 {
+                *t == u64::MAX
+            } else {
+                let w_ret_now = if w.returned() { w.ret_now } else { g.ret_now };
+                let lo = ttl.saturating_sub(g.ret_now.saturating_sub(w.inv_now));
+                let hi = ttl.saturating_sub(g.inv_now.saturating_sub(w_ret_now.min(g.inv_now)));
+                *t != u64::MAX && *t >= lo && *t <= hi
+            }
+        });
+        *out.probes.entry("get_ttl_attributed_to_a_write_of_the_same_key").or_default() += 1;
+        if !explained {
+            out.violations.push(violk("C18", "R-ttl-of-other-key", g.ret_seq.unwrap(), k, if collide { "get_ttl reported a TTL that no write of this key can explain (the index is shared with a colliding key)" } else { "get_ttl reported a TTL that no write of this key can explain" }, format!("get_ttl({}) = {} at [{},{}]; writes of this key: {:?}", k, t, g.inv_now, g.ret_now, writes.iter().filter(|w| w.op.key() == Some(k)).map(|w| (w.op.clone(), w.inv_now)).collect::<Vec<_>>())));
+        }
+    }
     if let KeyMode::Typed { ty } = &h.plan.cfg.keys {
         typed_rules(h, ty, &mut out);
         return out;
